@@ -212,11 +212,11 @@ def unit_primitives(ctx, reps):
 def units(tier):
     q = tier == 'quick'
     ns = 6
-    us = [{'name': 'enum-%s-%d' % (m, i), 'fn': 'unit_enum', 'kwargs': {'mode': m, 'shard': i, 'nshards': ns, 'reps': 1 if q else 8}}
+    us = [{'name': 'enum-%s-%d' % (m, i), 'fn': 'unit_enum', 'kwargs': {'mode': m, 'shard': i, 'nshards': ns, 'reps': 1 if q else 24}}
           for m in ('encrypt', 'decrypt') for i in range(ns)]
-    us.append({'name': 'primitives', 'fn': 'unit_primitives', 'kwargs': {'reps': 30 if q else 600}})
-    for i in range(2 if q else 3):
-        us.append({'name': 'generated-%d' % i, 'fn': 'unit_generated', 'kwargs': {'n': 300 if q else 4000}})
+    us.append({'name': 'primitives', 'fn': 'unit_primitives', 'kwargs': {'reps': 30 if q else 2000}})
+    for i in range(2 if q else 6):
+        us.append({'name': 'generated-%d' % i, 'fn': 'unit_generated', 'kwargs': {'n': 300 if q else 8000}})
     return us
 
 
